@@ -39,6 +39,17 @@ func Generate(root string, seed int64, n int) ([]Entry, error) {
 			list = append(list, Entry{Dir: dir, Mains: []string{"."}, Name: name, Module: "seqprog"})
 			continue
 		}
+		if i%6 == 3 {
+			// two mains sharing a non-generic library, one of them linknaming into it
+			module := fmt.Sprintf("plainprog%03d", i)
+			name = fmt.Sprintf("plain%03d", i)
+			p := gengen.GeneratePlainMulti(r, module)
+			if err := writeProg(dir, p.Files); err != nil {
+				return nil, err
+			}
+			list = append(list, Entry{Dir: dir, Mains: p.Mains, Name: name, Module: module})
+			continue
+		}
 		module := fmt.Sprintf("genprog%03d", i)
 		p := gengen.Generate(r, i%3 == 1, module)
 		if err := writeProg(dir, p.Files); err != nil {
